@@ -40,4 +40,8 @@ theorem dataSize_eq (s : QhttpGen.Range.St) : QhttpGen.Range.dataSize_ s = (conv
 theorem ctor3_eq (f t s : Int) : conv (QhttpGen.Range.ctor3 f t s) = Qhttp.Range.ofNums f t s := by
   simp only [QhttpGen.Range.ctor3, Qhttp.Range.ofNums, conv]
 
+theorem ctorResize_eq (o : QhttpGen.Range.St) (s : Int) :
+    conv (QhttpGen.Range.ctorResize o s) = (conv o).withSize s := by
+  simp only [QhttpGen.Range.ctorResize, Qhttp.Range.withSize, conv]
+
 end QhttpBridge.Range
